@@ -320,6 +320,18 @@ func (p *Program) buildScript(o *Obligation) *Script {
 		}
 		assumes = append(assumes, App("distinct", SBool, ts...))
 	}
+	// A-HASH: module account addresses are hashes of the module names; different names give different addresses
+	var maddrs []*Term
+	for _, t := range collectAll(roots) {
+		if t.kind == tUF && t.Op == "module_addr" && len(t.Args) == 1 {
+			maddrs = append(maddrs, t)
+		}
+	}
+	for i := 0; i < len(maddrs); i++ {
+		for j := i + 1; j < len(maddrs); j++ {
+			assumes = append(assumes, Implies(Neq(maddrs[i].Args[0], maddrs[j].Args[0]), Neq(maddrs[i], maddrs[j])))
+		}
+	}
 	sc.Assumes = assumes
 	sc.Goal = goal
 	if o.ExpectSat {
